@@ -50,6 +50,15 @@ CHECKS.update({
               "chest contents, TLC evaluates the placed entity's circuit condition on the network actually wired to it and compares it with "
               "(expr > 0); values derived from .output are compared as in C01/C02 (so a contribution counted twice is a failure)."),
         design="DESIGN 7 C06", technique="TLC refinement of entity circuit conditions with environment emitters"),
+    "C07": dict(
+        text=("Every valid way of invoking the compiler (GenInvoke: entry point x file / -i x string / --json x stdout / -o x options) is run "
+              "as a real subprocess on programs of six families; the emitted text is decoded (base64+zlib+JSON with the standard library) "
+              "and Export.tla compares it entity by entity (operation, operands, constants, network selections, condition rows and "
+              "connectives, outputs and copy mode, constant sections, circuit conditions) and wire by wire with the planned circuit recorded "
+              "by hook H1 in the same process; the string and JSON forms must decode to one blueprint; the decoded text is then executed "
+              "against the interpreter (Refine1), so 'executing the decoded text gives the planned behaviour' is checked by execution."),
+        design="DESIGN 7 C07", category="translation_validation",
+        technique="TLC translation validation of the exported text against the recorded plan (Export.tla) + refinement of the decoded text"),
     "C08": dict(
         text=("(1) The layout stage's control flow (retry loop, relaxation ladder, quick solve, routing) is a TLA+ design model checked "
               "exhaustively (safety and liveness). (2) Its behaviours are forced into the real code as layout-outcome scripts (hook H2) for "
